@@ -2078,6 +2078,8 @@ int main(int argc, char** argv)
                 add_viol(storage, progs[std::size_t(br.hung_prog)], "free run made no progress (all threads asleep for 10 s: hang, or crash, e.g. std::mutex misuse)");
         }
         samples.raw(jobj().raw("program", prog_json(progs[0], true)).str("storage", storage).num("free_runs_per_program", iters).done());
+        if (br.hung)
+            break; // one wedged std::mutex is evidence enough; every further flavour would cost another 10 s
     }
     jobj extra;
     extra.num("free_runs", runs).num("tsan_reports", reports).num("programs_with_report", nviol).num("hung_batches", hangs);
